@@ -68,7 +68,8 @@ class SortFieldsCustomMiddleware(BlockMiddleware):
                 return len(self._order)
 
         entry.fields = sorted(entry.fields, key=_sort_key)
-        entry.parser_metadata[self.metadata_key()] = self._order
+        # a copy: the metadata of every entry (and of every result) is its own object
+        entry.parser_metadata[self.metadata_key()] = list(self._order)
         return entry
 
     # docstr-coverage: inherited
